@@ -43,6 +43,15 @@ def run_coq(exprs):
 
 
 def run(chk, tier):
+    try:
+        return _run(chk, tier)
+    except Exception as e:
+        import traceback
+        chk.broken_obligation('correspondence:renderer-harness-exception', traceback.format_exc()[-900:])
+        return {'render_cases': 0}
+
+
+def _run(chk, tier):
     r = chk.rng
     ref = c04_valcorr.Ref(core.REPO)
     n = 12 if tier == 'quick' else 60
@@ -101,6 +110,8 @@ def run(chk, tier):
         if 'ok' not in x: chk.broken_obligation('correspondence:renderer-call', {'f': 'make_inline_cell_conflict', 'result': x}); continue
         cells = x['ok']
         nl = len(lv) + max(0, lrem - rrem)
+        if not (isinstance(cells, list) and len(cells) > nl + 1 and all(isinstance(c, dict) for c in cells)):
+            chk.broken_obligation('correspondence:renderer', {'renderer': 'make_inline_cell_conflict', 'implementation': cells}); continue
         ids = [cells[j].get('id', '') for j in (0, nl + 1, len(cells) - 1)]
         term = '(JArr (make_inline_cell_conflict (%s, %s, %s) %s %s %s %d %d %d))' % (S(ids[0]), S(ids[1]), S(ids[2]), jl(base), jl(lv), jl(rv), start, lrem, rrem)
         add('b (json_eqb %s %s)' % (term, J(cells)), (('make_inline_cell_conflict', {'base': base, 'lvals': lv, 'rvals': rv, 'start': start, 'lremove': lrem, 'rremove': rrem}), 'eq', 1))
